@@ -1,0 +1,14 @@
+//go:build verif
+// +build verif
+
+package base
+
+// Contracts for package base (consumed by /verif/govc; comment-only file).
+
+//@ func (*RuleEntity).Execute
+//@   props C09 C11 C15
+//@   requires r != nil
+//@   modifies frame rulerun
+//@   ensures [C11] failnoflag: result.1 != nil ==> !result.2
+//@   nopanic
+//@   trusted interpreter contracts pending
